@@ -253,9 +253,14 @@ def run(ctx):
     if vf is not None:
         eb = ExprBuilder(vf)
         entries = []
+        from ..loops import enumerate_as_range, prefix_slices, loop_var_parts
+        _norm = lambda e: prefix_slices(enumerate_as_range(e))
+        tap_ranges = []
         for bb, i, s_, tgt, root, chain, val in stores(vf, eb):
+            tgt, val = _norm(tgt), _norm(val)
             # target: *get_mut_with_offset(ring_buffer, i)
             if tgt[0] == "call" and tgt[1].endswith("get_mut_with_offset") and show(tgt[2][0]) == "self.ring_buffer":
+                tap_ranges.append(loop_var_parts(tgt[2][1]))
                 ie = tgt[2][1]
 
                 def atomize(e, tgt=tgt, ie=ie):
@@ -288,6 +293,7 @@ def run(ctx):
             # tap[i] += noise * (delta - h_i)` - one store whose selector variable has exactly those
             # two definitions
             for bb, i, s_, tgt, root, chain, val in stores(vf, eb):
+                tgt, val = _norm(tgt), _norm(val)
                 if not (tgt[0] == "call" and tgt[1].endswith("get_mut_with_offset")):
                     continue
                 ie = tgt[2][1]
@@ -349,14 +355,13 @@ def run(ctx):
         else:
             ctx.fail("C07-R4", vf.path, "centre", "no variable holds (ring_buffer.len() - 1) / 2; single-definition variables are %s" % cvals[:6], vf.loc())
         # loops cover 0..len
-        rng = []
-        for bb, i, s_ in vf.iter_stmts():
-            if s_["k"] == "assign" and s_["rv"]["k"] == "aggregate" and s_["rv"]["kind"].get("def", "").endswith("ops::Range"):
-                rng.append(eb.at(bb, i).rvalue(s_["rv"]))
-        if len(rng) == 2 and all(x[2][0][0] == "c" and x[2][0][1] == 0 and "len(self.ring_buffer)" in show(x[2][1]) for x in rng):
-            ctx.ok("C07-R4", "both tap loops cover 0..ring_buffer.len()", vf.loc())
+        # (read off the index of every tap store: the variable of a loop 0..ring_buffer.len(),
+        # written as a range loop or as an enumerate() over the first ring_buffer.len() taps)
+        okr = bool(tap_ranges) and all(r is not None and r[0] == "up" and r[1][0] == "c" and r[1][1] == 0 and show(r[2]) == "vocoder::excitation::RingBuffer::<T>::len(self.ring_buffer)" for r in tap_ranges)
+        if okr:
+            ctx.ok("C07-R4", "every tap loop covers 0..ring_buffer.len()", vf.loc())
         else:
-            ctx.fail("C07-R4", vf.path, "tap range", "tap loops are %s" % [show(x) for x in rng], vf.loc())
+            ctx.fail("C07-R4", vf.path, "tap range", "tap loops are %s" % [("%s %s..%s" % (r[0], show(r[1]), show(r[2])[:80]) if r else None) for r in tap_ranges], vf.loc())
     uf = cm.body_or_fail(ctx, p, "C07-R4", EX + "unvoiced_frame")
     if uf is not None:
         eb = ExprBuilder(uf)
